@@ -72,8 +72,40 @@ pub fn gen_set(rng: &mut Rng, profile: usize, max_size: u64) -> BTreeSet<String>
     let alpha = alphabet(profile);
     let mut set = BTreeSet::new();
     let size = rng.range(1, max_size.max(1));
-    let shape = if (profile == 4 || profile == 8) && rng.chance(1, 3) { 6 } else { rng.below(6) };
+    let shape = if (profile == 4 || profile == 8) && rng.chance(1, 3) {
+        6
+    } else if rng.chance(1, 30) {
+        7
+    } else if rng.chance(1, 120) {
+        8
+    } else {
+        rng.below(6)
+    };
     match shape {
+        // many: far more test cases than the other shapes (size-triggered code paths), kept cheap by a
+        // tiny alphabet and short strings
+        7 => {
+            let n = *rng.pick(&[24u64, 40, 65, 100, 130]);
+            let small: Vec<&str> = alpha.iter().copied().take(3).collect();
+            let mut tries = 0;
+            while (set.len() as u64) < n && tries < n * 4 {
+                tries += 1;
+                set.insert(word(rng, &small, 1, 5));
+            }
+        }
+        // long: one long test case (length-triggered code paths) next to a few short ones
+        8 => {
+            let n = *rng.pick(&[40u64, 70, 130]);
+            let unit = word(rng, &alpha, 2, 5);
+            let mut s = String::new();
+            while (s.chars().count() as u64) < n {
+                s.push_str(&unit);
+                s.push_str(*rng.pick(&alpha));
+            }
+            set.insert(s);
+            set.insert(word(rng, &alpha, 0, 3));
+            set.insert(word(rng, &alpha, 1, 3));
+        }
         // case variants: one base string spelled with members of the same case-folding group. Under
         // case-insensitive matching several of them lower-case to the same string, some keep their
         // spelling (the length-preserving guard), some are the lower-case form of others.
